@@ -13,6 +13,7 @@ from collections import Counter
 import vlib
 from props import c17gate
 from props import c17b
+from props import c17e
 
 
 def hx(s):
@@ -451,7 +452,7 @@ def run_election(ctx):
     if ctx.replay:
         rp = json.load(open(ctx.replay))
         scripts = [r["case"] for r in [rp["replay"]] + rp.get("more_cases", [])
-                   if isinstance(r, dict) and r.get("case") and not r["case"].startswith(("G ", "X "))]
+                   if isinstance(r, dict) and r.get("case") and not r["case"].startswith(("G ", "X ", "V "))]
     else:
         scripts = gen_scripts(ctx)
     if not scripts:
@@ -525,4 +526,5 @@ def run(ctx):
     run_ring(ctx)
     run_election(ctx)
     c17gate.run_gate(ctx)
+    c17e.run_vote(ctx)
     ctx.finish()
